@@ -78,6 +78,7 @@ def run(ctx):
     l6_sibling_listeners(ctx, bodies, {b_.root for (b_, _, _) in service})
     l4_no_panic_in_listener_task(ctx, service)
     l7_shared_lock_never_wedged(ctx)
+    l9_counted_slots_are_released_on_every_exit(ctx)
     ctx.floor("L1", "per-flow loops (association task, binding reply task, ...)", 1, len(perflow))
     for (b, (h, body), src) in service:
         src_results = set()
@@ -560,3 +561,28 @@ def l7_shared_lock_never_wedged(ctx):
                f"`{c2.name}` takes the lock again {how} while the guard acquired at {loc(t['sp'])} is alive: a self-deadlock with the guard held; one flow that reaches this "
                "path parks its worker for good and every later flow that touches the same shared state parks behind it")
     ctx.ob("L7", "workspace", "scan", "-", True, f"{n} blocking lock acquisitions scanned", nontrivial=False, ordinal=False)
+
+
+def l9_counted_slots_are_released_on_every_exit(ctx):
+    """L9: a service that admits flows against a shared counter (an atomic incremented per accepted flow, decremented when the flow is done, compared
+    with a bound in the accept loop) must give the slot back on *every* way out of the flow's task. A return that skips the decrement - a
+    failed handshake, an early `return` - leaks one slot per such flow; once the bound's worth of them has accumulated the listener refuses
+    everybody, for ever. Pairing rule on the task body that owns the decrement: from its entry, no return is reachable without passing a
+    release (`fetch_sub` / `fetch_add` of a negative / `store`) of that counter."""
+    prog = ctx.prog
+    n = 0
+    for b in prog.prod_bodies():
+        rel = [blk for (blk, c, t) in b.calls() if c.method == "fetch_sub" and "Atomic" in ((c.self_s or "") + c.target)]
+        if not rel:
+            continue
+        n += 1
+        rets = set(b.return_blocks())
+        reach = b.reach_from(0, avoid=frozenset(rel))
+        bad = sorted(x for x in reach if x in rets)
+        t0 = b.call_term(rel[0]) if hasattr(b, "call_term") else b.term(rel[0])
+        ctx.ob("L9", b.defp, "counted-slot-released-on-every-exit", loc((t0 or {}).get("sp") or b.sp), not bad,
+               "every return of the task passes the decrement of the admission counter" if not bad else
+               "this task gives its slot of a shared admission counter back with `fetch_sub`, but it can return without passing it (an early return on a failed step): each such "
+               "flow leaks one slot, and when as many have accumulated as the bound allows the accept loop refuses every new connection - one kind of failing flow takes the "
+               "service down for all others")
+    ctx.ob("L9", "workspace", "scan", "-", True, f"{n} task bodies release a counted slot", nontrivial=False, ordinal=False)
